@@ -5,9 +5,23 @@ set -e
 cd "$(dirname "$0")"
 mkdir -p gen bin
 model=$1; driver=$2; out=$3
+# up to date? (the binary is newer than the extracted model, the glue, the driver and this script)
+if [ -x bin/$out ] && [ bin/$out -nt ../coq/$model.ml ] && [ bin/$out -nt ../coq/$model.mli ] && [ bin/$out -nt zglue.ml ] \
+   && [ bin/$out -nt bglue.ml ] && [ bin/$out -nt "$driver" ] && [ bin/$out -nt build.sh ]; then
+  exit 0
+fi
+# every driver is compiled in a directory of its own and moved into place in one step, so that checks running side by
+# side neither read half-written files of each other nor execute a binary that is being rewritten
+d=gen/$out.$$
+mkdir -p $d
+trap 'rm -rf "$PWD/$d"' EXIT
+cp ../coq/$model.ml ../coq/$model.mli $d/
 cp ../coq/$model.ml ../coq/$model.mli gen/
 mod=$(echo "$model" | sed 's/^\(.\)/\U\1/')
-{ echo "open $mod"; cat zglue.ml; cat bglue.ml; cat "$driver"; } > gen/${out}_main.ml
-cd gen
-ocamlfind ocamlopt -O3 -unboxed-types 2>/dev/null -w -a -package str -linkpkg $model.mli $model.ml ${out}_main.ml -o ../bin/$out 2>/dev/null || \
-ocamlfind ocamlopt -w -a -package str -linkpkg $model.mli $model.ml ${out}_main.ml -o ../bin/$out
+{ echo "open $mod"; cat zglue.ml; cat bglue.ml; cat "$driver"; } > $d/${out}_main.ml
+cp $d/${out}_main.ml gen/${out}_main.ml
+here=$PWD
+cd $d
+ocamlfind ocamlopt -O3 -unboxed-types 2>/dev/null -w -a -package str -linkpkg $model.mli $model.ml ${out}_main.ml -o $out.new 2>/dev/null || \
+ocamlfind ocamlopt -w -a -package str -linkpkg $model.mli $model.ml ${out}_main.ml -o $out.new
+mv -f $out.new $here/bin/$out
